@@ -171,3 +171,32 @@ def split_statement_reads(tree):
                     if p > first and p not in inside and n.id in bn:
                         out[p] = bn
     return out
+
+
+def in_finally_reached_by_return(tree, pos):
+    """pos lies in the finalbody of a try statement whose body / handlers / else contain a return statement of the
+    same function (the return jumps straight into the finally block, an edge supp's flow graph does not have)."""
+    def has_return(stmts):
+        for st in stmts:
+            for n in _walk_same_function(st):
+                if isinstance(n, ast.Return):
+                    return True
+        return False
+    for node in ast.walk(tree):
+        if isinstance(node, ast.Try) and node.finalbody:
+            lo = (node.finalbody[0].lineno, node.finalbody[0].col_offset)
+            hi = (node.finalbody[-1].end_lineno, node.finalbody[-1].end_col_offset)
+            if lo <= pos < hi:
+                inner = list(node.body) + list(node.orelse) + [s for h in node.handlers for s in h.body]
+                if has_return(inner):
+                    return True
+    return False
+
+
+def _walk_same_function(node):
+    yield node
+    for c in ast.iter_child_nodes(node):
+        if isinstance(c, (ast.FunctionDef, ast.AsyncFunctionDef, ast.Lambda, ast.ClassDef)):
+            continue
+        for x in _walk_same_function(c):
+            yield x
